@@ -71,6 +71,7 @@ type Frame struct {
 }
 
 type deferred struct {
+	guard string
 	instr *ssa.Defer
 	args  []*Val
 	fnv   *Val
